@@ -1,5 +1,7 @@
 package main
 
+import "fmt"
+
 func properties() map[string]*PropertySpec {
 	m := map[string]*PropertySpec{}
 	add := func(p *PropertySpec) { m[p.ID] = p }
@@ -187,6 +189,63 @@ func properties() map[string]*PropertySpec {
 		Harnesses: []HarnessSpec{
 			td("H_TD_C20_step", "step", "arbitrary store (each pool user present or not, 1-2 mail values, optional description, optional group) x one of add / delete / modify{add,delete,replace} x {mail,description} x 0..2 values / search, then every pool entry is searched and compared with the model", ""),
 			td("H_TD_C20_seq", "seq", "every sequence of two operations from the empty store", ""),
+		}})
+	add(&PropertySpec{ID: "C18",
+		Functions: "(*Server).Run (WithTLSConfig, tls.NewListener wrapping, Accept), newConn, (*conn).initConn, (*conn).serveRequests, readRequest, Run$1 teardown",
+		Outside:   []string{"that a TLS connection yields application bytes only after a handshake satisfying its configuration is the crypto/tls contract (DESIGN §5.5): assumed, not verified; plaintext bytes, a missing or wrong client certificate and an abandoned connect are all 'the handshake does not complete'", "testdirectory.GetTLSConfig / Start (x509, ecdsa, pem plumbing) is not encoded: the WithMTLS option itself is outside this check (O4 of the design is not claimed)"},
+		Harnesses: []HarnessSpec{
+			eng("H_C18_tls", "tls", "configurations {none, server authentication, client certificate required} x first client {conforming, failing handshake, abandoned connect} with a conforming second client, spawn-order schedules", ""),
+		}})
+	poC05 := func(p *PathResult, po *PO) []POFinding {
+		var out []POFinding
+		// per thread: the bufio.Write/Flush calls; no call of another thread may fall between a Write and its Flush,
+		// and no two bufio calls of different threads may be unordered
+		type call struct{ idx, tid int; kind string }
+		var calls []call
+		for i, e := range p.Events {
+			if e.Kind == "bufio.Write" || e.Kind == "bufio.Flush" {
+				calls = append(calls, call{i, e.Tid, e.Kind})
+			}
+		}
+		for a := 0; a < len(calls); a++ {
+			for b := 0; b < len(calls); b++ {
+				x, y := calls[a], calls[b]
+				if x.tid == y.tid {
+					continue
+				}
+				if a < b {
+					if v, order := po.Query(fmt.Sprintf("(= c%d c%d)", x.idx, y.idx)); v == Sat {
+						return append(out, POFinding{Key: "unsynchronised bufio.Writer use", Detail: "two method calls on the connection's bufio.Writer from different goroutines are not ordered by happens-before", Order: po.Describe(order)})
+					}
+				}
+				// x = a Write; find its thread's next Flush
+				if x.kind != "bufio.Write" {
+					continue
+				}
+				fl := -1
+				for c := a + 1; c < len(calls); c++ {
+					if calls[c].tid == x.tid && calls[c].kind == "bufio.Flush" {
+						fl = calls[c].idx
+						break
+					}
+				}
+				if fl < 0 {
+					continue
+				}
+				if v, order := po.Query(lt(x.idx, y.idx), lt(y.idx, fl)); v == Sat {
+					return append(out, POFinding{Key: "frame interleaving", Detail: "a bufio call of another goroutine can fall between one response's Write and its Flush (torn or merged frames)", Order: po.Describe(order)})
+				}
+			}
+		}
+		return out
+	}
+	add(&PropertySpec{ID: "C05",
+		Functions: "(*ResponseWriter).Write, newResponseWriter, (*conn).serveRequests (writer/lock identity), serveRequests$1, (*Request).StartTLS / initConn for the upgraded variant",
+		Outside:   []string{"N <= 3 writers x 2 frames on one connection; hundreds of writers, kernel back-pressure, the TLS record layer and GOMAXPROCS are behind the bufio/net/tls stubs", "bufio.Writer is modelled as a non-thread-safe buffer whose Flush emits the buffered bytes in one chunk (frames larger than the buffer being emitted by Write itself is bufio's behaviour, covered by the mutual-exclusion query: no foreign call between a Write and its Flush)"},
+		Harnesses: []HarnessSpec{
+			{Name: "H_C05_writers", Native: true, Reach: []string{"writers"}, PO: poC05,
+				Bound: "2..3 concurrent handlers x 2 frames each, plain or after a StartTLS upgrade; spawn-order schedules + <= 1 preemption at a synchronisation point; per trace the partial-order queries: can two bufio calls of different goroutines coincide? can a foreign bufio call fall between a Write and its Flush?"},
+			nat("H_C05_step", "step", "one Write from an empty buffer and a free lock, write succeeds or fails, strings < 24 bytes", ""),
 		}})
 	add(&PropertySpec{ID: "C02",
 		Functions: "(*conn).readRequest, (*conn).readPacket, newRequest, newMessage, (*packet).{basicValidation,requestPacket,requestType,requestMessageID,simpleBindParameters,searchParmeters,modifyParameters,addParameters,deleteParameters,extendedOperationName,controlPacket,assert,assertApplicationRequest}, decodeControl, decodeAttribute, NewControl*",
